@@ -24,6 +24,7 @@ type vnode struct {
 	data  []value
 	isDir bool
 	mode  uint32
+	foreignFlock int // advisory lock held by a process outside the model: 0 none, 1 shared, 2 exclusive
 }
 
 type vhandle struct {
@@ -53,7 +54,63 @@ var vfs *vfsState
 
 type processCrash struct{}
 
+// hangSignal ends a verifWithin block whose code keeps sleeping and retrying although every timer
+// it set has fired.
+type hangSignal struct{}
+
+// Timers (verifTimers(true)): time.AfterFunc callbacks - the deadline of context.WithTimeout - fire
+// at a retry sleep chosen by the engine, at the latest at the third sleep after they were set.
+type vtimer struct {
+	f               value
+	stopped, fired  bool
+	sleeps          int
+}
+
+var (
+	timersOn     bool
+	timers       []*vtimer
+	timerOf      map[*value]*vtimer
+	withinOn     bool
+	withinSleeps int
+)
+
+func resetTimers() {
+	timersOn, timers, timerOf, withinOn, withinSleeps = false, nil, map[*value]*vtimer{}, false, 0
+}
+
+// retrySleep is called by the models of time.Sleep and time.After: pending timers may fire, and a
+// verifWithin block that has slept 12 times with no timer left to wait for is a hang.
+func retrySleep(fr *frame) {
+	if timersOn {
+		for _, t := range timers {
+			if t.stopped || t.fired {
+				continue
+			}
+			t.sleeps++
+			if t.sleeps >= 3 || eng.Choice("timer", 2) == 1 {
+				t.fired = true
+				call(fr.i, fr, token.NoPos, t.f, nil)
+			}
+		}
+	}
+	if withinOn {
+		pending := false
+		for _, t := range timers {
+			if !t.stopped && !t.fired {
+				pending = true
+			}
+		}
+		if !pending {
+			withinSleeps++
+			if withinSleeps > 12 {
+				panic(hangSignal{})
+			}
+		}
+	}
+}
+
 func resetVFS() {
+	resetTimers()
 	vfs = &vfsState{files: map[string]*vnode{}, handles: map[*value]*vhandle{}, cwd: "/work", nextFd: 3}
 	vfs.files["/work"] = &vnode{isDir: true, mode: 0o755}
 }
@@ -478,10 +535,21 @@ func init() {
 		// modelled as always granted (the weakest behaviour: properties must hold without them)
 		"github.com/mithrandie/go-file/v2.LockSH":    flockOK,
 		"github.com/mithrandie/go-file/v2.LockEX":    flockOK,
-		"github.com/mithrandie/go-file/v2.TryLockSH": flockOK,
-		"github.com/mithrandie/go-file/v2.TryLockEX": flockOK,
+		"github.com/mithrandie/go-file/v2.TryLockSH": func(fr *frame, a []value) value {
+			if h := handleOf(a[0]); h != nil && h.node != nil && h.node.foreignFlock == 2 {
+				return errorValue(fr, "resource temporarily unavailable")
+			}
+			return flockOK(fr, a)
+		},
+		"github.com/mithrandie/go-file/v2.TryLockEX": func(fr *frame, a []value) value {
+			if h := handleOf(a[0]); h != nil && h.node != nil && h.node.foreignFlock != 0 {
+				return errorValue(fr, "resource temporarily unavailable")
+			}
+			return flockOK(fr, a)
+		},
 		"github.com/mithrandie/go-file/v2.Unlock":    flockOK,
 		"time.After": func(fr *frame, a []value) value {
+			retrySleep(fr)
 			sched.sleepYield()
 			c := newChan(1)
 			c.buf = append(c.buf, zero(namedType(fr, "time", "Time")))
@@ -585,6 +653,40 @@ func init() {
 		}()
 		call(fr.i, fr, token.NoPos, a[0], nil)
 		return false
+	}
+	// verifForeignFlock(path, exclusive): a process outside the model holds an advisory lock on the file
+	intrinsics["verifForeignFlock"] = func(fr *frame, a []value) value {
+		n := vfs.files[vfs.abs(goStr(a[0]))]
+		if n == nil {
+			panic("verifForeignFlock: no such file")
+		}
+		n.foreignFlock = 1
+		if a[1].(bool) {
+			n.foreignFlock = 2
+		}
+		used("flock held by a foreign process (model: TryLockSH fails under an exclusive holder, TryLockEX under any holder)")
+		return nil
+	}
+	intrinsics["verifTimers"] = func(fr *frame, a []value) value {
+		timersOn = a[0].(bool)
+		used("timers (model: a time.AfterFunc callback - the deadline of context.WithTimeout - fires at a retry sleep chosen by the engine, at the latest at the third)")
+		return nil
+	}
+	// verifWithin(f): runs f; false if f keeps sleeping and retrying (12 sleeps) with no timer left
+	intrinsics["verifWithin"] = func(fr *frame, a []value) (res value) {
+		withinOn, withinSleeps = true, 0
+		defer func() {
+			withinOn = false
+			if r := recover(); r != nil {
+				if _, ok := r.(hangSignal); ok {
+					res = false
+					return
+				}
+				panic(r)
+			}
+		}()
+		call(fr.i, fr, token.NoPos, a[0], nil)
+		return true
 	}
 	intrinsics["verifFaultedOps"] = func(fr *frame, a []value) value {
 		return strings.Join(vfs.faulted, ",")
